@@ -255,6 +255,16 @@ def gen_C13(rng, tier):
                 l2 = p.bind('loss %s %s %s' % (j, q, tt)); p.add('obs %s' % l2)
                 p.add('bp %s' % l2); p.add('obs %s' % q); p.add('obs %s' % q0)
             p.tag('object-reused')
+        if rng.random() < 0.3:
+            # the SAME prediction leaf again after ResetGradContext with the flag it already has (or the other one), against
+            # a different target: the gradient is that of the new loss only
+            flag = rng.choice([1, 1, 0])
+            p.add('reset %s %d' % (tp0, flag))
+            yt2, _ = target_values(rng, kind, shape) if kind != 'mse' else ([rng.uniform(-3, 3) for _ in range(n)], '')
+            tt2 = p.tensor(shape, yt2)
+            l3 = p.bind('loss %s %s %s' % (j, tp0, tt2)); p.add('obs %s' % l3)
+            p.add('bp %s' % l3); p.add('obs %s' % tp0)
+            p.tag('prediction-reset-in-place')
         p.tag(kind, mode, 'upstream%d' % depth)
         progs.append(p)
     return progs
